@@ -83,7 +83,7 @@ from collections import namedtuple
 from collections.abc import Mapping
 from contextlib import contextmanager
 from copy import deepcopy
-from filecmp import cmpfiles, dircmp
+from filecmp import clear_cache, cmpfiles, dircmp
 from functools import partial
 from multiprocessing.pool import ThreadPool
 
@@ -125,6 +125,9 @@ class _dircmp_deep(dircmp):
 
     def phase3(self):
         """Find out differences between common files."""
+        # filecmp remembers its verdicts per (path, size, mtime) for the whole process;
+        # a comparison by content must not be answered from that memory.
+        clear_cache()
         xx = cmpfiles(self.left, self.right, self.common_files, shallow=False)
         self.same_files, self.diff_files, self.funny_files = xx
 
